@@ -37,6 +37,7 @@ type DiskOp struct {
 	Start  int  // invocation step
 	Gen    int
 	G      string
+	Interrupted bool // reached the medium while the process stopped; the caller never saw a result
 }
 
 type diskOp struct {
@@ -116,6 +117,18 @@ func (s *Sim) diskAction(p *park) Action {
 	d := w.Disk
 	return Action{Name: "disk", Weight: 10, p: p, Run: func() {
 		rec := DiskOp{Kind: op.kind, Key: op.key, Start: op.at, Gen: w.Gen, G: p.g}
+		idx := len(d.Log) - w.StopBase
+		if w.StopParam >= 0 && w.StopParam == 2*idx {
+			// process stop with this operation in progress: a Save or
+			// Delete may or may not have reached the medium
+			w.Faults["stop_before_op"]++
+			w.Ev("stop", idx, "process stops before storage operation %d (%c %#x by %s)", idx, op.kind, op.key, p.g)
+			if (op.kind == 'S' || op.kind == 'D') && w.Tape.Flip("stop-applied", 500) {
+				d.applyInterrupted(op, p.g)
+			}
+			s.stop()
+			return
+		}
 		fail, after := false, false
 		if w.FaultOK() && w.Tape.Flip("dkerr", d.Opts.ErrBefore) {
 			fail = true
@@ -166,8 +179,45 @@ func (s *Sim) diskAction(p *park) Action {
 		if h, ok := w.X.(interface{ OnDisk(*DiskOp) }); ok {
 			h.OnDisk(&d.Log[len(d.Log)-1])
 		}
+		if w.StopParam >= 0 && w.StopParam == 2*idx+1 {
+			w.Faults["stop_after_op"]++
+			w.Ev("stop", idx, "process stops right after storage operation %d", idx)
+			s.stop()
+			return
+		}
 		s.unpark(p)
 	}}
+}
+
+// applyInterrupted makes an operation that was in progress at a process stop
+// reach the medium without the (dead) caller learning about it.
+func (d *Disk) applyInterrupted(op *diskOp, g string) {
+	w := d.W
+	rec := DiskOp{Kind: op.kind, Key: op.key, Start: op.at, Step: w.Steps, Gen: w.Gen, G: g, Err: true, Effect: true, Interrupted: true}
+	switch op.kind {
+	case 'S':
+		var v []byte
+		for _, b := range op.bufs {
+			v = append(v, b...)
+		}
+		d.M[op.key] = v
+		rec.Val = v
+	case 'D':
+		delete(d.M, op.key)
+	}
+	d.Log = append(d.Log, rec)
+	w.Ev("disk", int(op.key), "%s %c %#x reached the medium although the process stopped", g, op.kind, op.key)
+	if h, ok := w.X.(interface{ OnDisk(*DiskOp) }); ok {
+		h.OnDisk(&d.Log[len(d.Log)-1])
+	}
+}
+
+// stop is a process stop at this instant.
+func (s *Sim) stop() {
+	s.Stopped = true
+	if h, ok := s.W.X.(interface{ OnStop(*Sim) }); ok {
+		h.OnStop(s)
+	}
 }
 
 // fs placeholders are in fs.go
